@@ -155,12 +155,34 @@ func init() {
 						for i := range rs {
 							rs[i] = plainChild{children[i]}
 						}
+						if nest := (capBits + n) % 2; n >= 2 && nest == 1 {
+							// a multi reporter among the children (not in last position when there is room): the leaves
+							// are still called once each, in the order given
+							k := 0
+							if n >= 4 {
+								k = 1
+							}
+							grouped := append([]tally.StatsReporter{}, rs[:k]...)
+							grouped = append(grouped, multi.NewMultiReporter(append([]tally.StatsReporter{}, rs[k:k+2]...)...))
+							grouped = append(grouped, rs[k+2:]...)
+							rs = grouped
+						}
 						plain = multi.NewMultiReporter(rs...)
 						gotCaps = plain.Capabilities()
 					} else {
 						rs := make([]tally.CachedStatsReporter, n)
 						for i := range rs {
 							rs[i] = cachedChild{children[i]}
+						}
+						if nest := (capBits + n) % 2; n >= 2 && nest == 1 {
+							k := 0
+							if n >= 4 {
+								k = 1
+							}
+							grouped := append([]tally.CachedStatsReporter{}, rs[:k]...)
+							grouped = append(grouped, multi.NewMultiCachedReporter(append([]tally.CachedStatsReporter{}, rs[k:k+2]...)...))
+							grouped = append(grouped, rs[k+2:]...)
+							rs = grouped
 						}
 						cached = multi.NewMultiCachedReporter(rs...)
 						gotCaps = cached.Capabilities()
